@@ -32,6 +32,7 @@ EXC_TYPES = {
     "KeyboardInterrupt": KeyboardInterrupt,
     "SimCrash": SimCrash,
     # message shapes a handler might trip over
+    "StopIteration": StopIteration,
     "EmptyMessage": NotImplementedError,
     "Multiline": RuntimeError,
 }
